@@ -704,12 +704,13 @@ def run_c17(ck, ctx):
     bins = [L.BIN] + ([L.HOOKBIN] if ok else [])
     BOUND = 20.0
 
-    def finish(p, t0, what, detail):
+    def finish(p, t0, what, detail, bound=None):
+        bound = bound or BOUND
         try:
-            out, err = p.communicate(timeout=BOUND)
+            out, err = p.communicate(timeout=bound)
         except subprocess.TimeoutExpired:
             p.kill(); p.communicate()
-            ck.violation('hang', dict(detail, what=what + ': the process did not end within %.0f s (deadlock / hang)' % BOUND)); return None
+            ck.violation('hang', dict(detail, what=what + ': the process did not end within %.0f s (deadlock / hang)' % bound)); return None
         dt = time.time() - t0
         err = L.ANSI.sub('', err.decode('utf-8', 'replace'))
         if 'panicked' in err or p.returncode not in (0, 1, 7) + tuple(detail.get('also_ok', ())):
@@ -798,7 +799,10 @@ def run_c17(ck, ctx):
         if rep % 3 == 2:
             p = subprocess.Popen([b, huge, 'check', 'all', '-e', '1'], stdout=subprocess.DEVNULL, stderr=subprocess.PIPE, env=env)
             ck.case(('full_queues_cap', rep))
-            finish(p, time.time(), 'cap: error cap reached in mid-stream of a long input', dict(args=['check', 'all', '-e', '1'], packets=npk))
+            # the perturbed build sleeps (up to 0.5 ms) at every hand-off, i.e. several times per packet: its time bound has to
+            # grow with the number of packets before the fault (measured: 23 s for 100 000 packets), the release build's does not
+            finish(p, time.time(), 'cap: error cap reached in mid-stream of a long input', dict(args=['check', 'all', '-e', '1'], packets=npk),
+                   bound=BOUND + (npk * 0.0006 if b == L.HOOKBIN else 0))
             continue
         p = subprocess.Popen([b, huge, 'view', 'rdh'], stdout=subprocess.PIPE, stderr=subprocess.PIPE, env=env)
         errbuf = []
